@@ -153,6 +153,9 @@ def r18_2(prog, rep):
     def _alts(tm, conds=()):
         if tm[0] == "ifexp":
             return _alts(tm[2], conds + ((tm[1], True),)) + _alts(tm[3], conds + ((tm[1], False),))
+        if tm[0] == "call" and tm[1][0] == "ifexp":
+            # (f if c else g)(x) is f(x) if c else g(x): `iterate = iter if is_pairs else get_items_iter(cls)`
+            return _alts(("call", tm[1][2], tm[2], tm[3]), conds + ((tm[1][1], True),)) + _alts(("call", tm[1][3], tm[2], tm[3]), conds + ((tm[1][1], False),))
         return [(tm, conds)]
 
     it_paths = P.paths_of(prog, it_f)
